@@ -30,6 +30,8 @@ double __CPROVER_uninterpreted_exp(double);
 #define STD_EXP(x) __CPROVER_uninterpreted_exp(x)
 /* LinearInterpolator<real_type>{{x0,y0},{x1,y1}}(x): uninterpreted (interpolation accuracy / containment is NOT decided) */
 double __CPROVER_uninterpreted_interp(double, double, double, double, double);
+double __CPROVER_uninterpreted_fdiv(double, double);
+#define FDIV(a, b) __CPROVER_uninterpreted_fdiv((a), (b))
 /* UniformGrid members: contracts from units c18_ug_find / c18_ug_index */
 static size_type UG_size(UniformGrid const* g) { return g->data_->size; }
 static real_type UG_front(UniformGrid const* g) { return g->data_->front; }
@@ -39,7 +41,7 @@ size_type UG_find(UniformGrid const* g, real_type value)
 __CPROVER_requires(g != 0 && g->data_ != 0)
 __CPROVER_requires(value >= g->data_->front && value < g->data_->back)     /* find's own CELER_EXPECT: checked at the call site */
 __CPROVER_assigns(g_bin)
-__CPROVER_ensures(__CPROVER_return_value + 1 < g->data_->size && g_bin == __CPROVER_return_value)
+__CPROVER_ensures(__CPROVER_return_value < g->data_->size - 1 && g_bin == __CPROVER_return_value)   /* the c18_ug_find postcondition (no wrap-around reading of bin + 1 < size) */
 ;
 double __CPROVER_uninterpreted_gridpoint(double, double, size_type);
 /* operator[]: its contract (c18_ug_index: requires i < size, returns front + delta*i) is deterministic, so the call is encoded as
@@ -52,6 +54,7 @@ static real_type UG_index(UniformGrid const* g, size_type i)
 """
 
 XS_BASIC = [
+    Rule(r"\b(\w+) /= ([^;]+);", r"\1 = FDIV(\1, \2);", "*", note="FP division -> uninterpreted function (the unit decides WHICH quotient is formed, not its value; SMT needs minutes per double division)"),
     Rule(r"std::log\(", "STD_LOG(", "*", note="std::log -> uninterpreted function"),
     Rule(r"std::exp\(", "STD_EXP(", "*", note="std::exp -> uninterpreted function"),
     Rule(r"this->get\(", "XS_get(self, ", "*", note="member call"),
@@ -64,6 +67,7 @@ XS_RULES = Q_RULES + [
     Rule(r"std::log\(", "STD_LOG(", "*", note="std::log -> uninterpreted function"),
     Rule(r"std::exp\(", "STD_EXP(", "*", note="std::exp -> uninterpreted function"),
     NamedLambda("calc_extrapolated", "real_type"),
+    Rule(r"\b(\w+) /= ([^;]+);", r"\1 = FDIV(\1, \2);", "*", note="FP division -> uninterpreted function (the unit decides WHICH quotient is formed, not its value)"),
     Rule(r"this->get\(", "XS_get(self, ", "*", note="member call"),
     Rule(r"loge_grid_\.(front|back|size)\(\)", r"UG_\1(&self->loge_grid_)", "*", note="UniformGrid accessor"),
     Rule(r"loge_grid_\.find\(", "UG_find(&self->loge_grid_, ", "*", note="UniformGrid::find -> stub with the c18_ug_find contract"),
@@ -145,13 +149,14 @@ __CPROVER_requires(energy > 0 && FIN(energy) && !__CPROVER_isnand(LOGE))
 __CPROVER_requires(FIN(""" + VAL % "0" + """) && FIN(""" + VAL % "SIZE_ - 1" + """))
 __CPROVER_assigns(g_bin)
 /* documented extrapolation: at/below the first point the first value, at/above the last point the last value; 1/E scaling exactly for indices >= prime_index */
-__CPROVER_ensures(LOGE <= self->data_->log_energy.front ==> EQV(__CPROVER_return_value, (0 >= PRIME ? """ + VAL % "0" + """ / energy : """ + VAL % "0" + """)))
-__CPROVER_ensures((LOGE > self->data_->log_energy.front && LOGE >= self->data_->log_energy.back) ==> EQV(__CPROVER_return_value, (SIZE_ - 1 >= PRIME ? """ + VAL % "SIZE_ - 1" + """ / energy : """ + VAL % "SIZE_ - 1" + """)))
+__CPROVER_ensures(LOGE <= self->data_->log_energy.front ==> EQV(__CPROVER_return_value, (0 >= PRIME ? """ + "FDIV(" + VAL % "0" + """, energy) : """ + VAL % "0" + """)))
+__CPROVER_ensures((LOGE > self->data_->log_energy.front && LOGE >= self->data_->log_energy.back) ==> EQV(__CPROVER_return_value, (SIZE_ - 1 >= PRIME ? FDIV(""" + VAL % "SIZE_ - 1" + """, energy) : """ + VAL % "SIZE_ - 1" + """)))
 /* inside the grid: linear interpolation in E between points bin and bin+1 (bin from UniformGrid::find), the upper value unscaled iff bin+1 is the prime index, the result scaled iff bin >= prime index */
-__CPROVER_ensures((LOGE > self->data_->log_energy.front && LOGE < self->data_->log_energy.back && (g_bin + 1 < SIZE_ ==> (FIN(""" + VAL % "g_bin" + """) && FIN(""" + VAL % "g_bin + 1" + """)))) ==>
-    (g_bin + 1 < SIZE_ && EQV(__CPROVER_return_value,
-       (g_bin >= PRIME ? __CPROVER_uninterpreted_interp(STD_EXP(GRIDPT(g_bin)), """ + VAL % "g_bin" + """, STD_EXP(GRIDPT(g_bin + 1)), """ + VAL % "g_bin + 1" + """, energy) / energy
-                       : __CPROVER_uninterpreted_interp(STD_EXP(GRIDPT(g_bin)), """ + VAL % "g_bin" + """, STD_EXP(GRIDPT(g_bin + 1)), (g_bin + 1 == PRIME ? """ + VAL % "g_bin + 1" + """ / STD_EXP(GRIDPT(g_bin + 1)) : """ + VAL % "g_bin + 1" + """), energy)))))
+#define IN_GRID (LOGE > self->data_->log_energy.front && LOGE < self->data_->log_energy.back)
+__CPROVER_ensures(IN_GRID ? g_bin + 1 < SIZE_ : 1)
+__CPROVER_ensures((IN_GRID && g_bin + 1 < SIZE_) ? ((FIN(""" + VAL % "g_bin" + """) && FIN(""" + VAL % "g_bin + 1" + """)) ? EQV(__CPROVER_return_value,
+       (g_bin >= PRIME ? FDIV(__CPROVER_uninterpreted_interp(STD_EXP(GRIDPT(g_bin)), """ + VAL % "g_bin" + """, STD_EXP(GRIDPT(g_bin + 1)), """ + VAL % "g_bin + 1" + """, energy), energy)
+                       : __CPROVER_uninterpreted_interp(STD_EXP(GRIDPT(g_bin)), """ + VAL % "g_bin" + """, STD_EXP(GRIDPT(g_bin + 1)), (g_bin + 1 == PRIME ? FDIV(""" + VAL % "g_bin + 1" + """, STD_EXP(GRIDPT(g_bin + 1))) : """ + VAL % "g_bin + 1" + """), energy))) : 1) : 1)
 {""" + pc.body + "}\n" + CALC_HARNESS % "XS_call(&c, e);")
 
 
@@ -163,7 +168,7 @@ __CPROVER_requires(""" + CALC_OK + """)
 __CPROVER_requires(index < self->data_->log_energy.size)
 __CPROVER_assigns()
 /* the tabulated cross section at a grid point: the stored value, divided by the point's energy for indices >= prime_index */
-__CPROVER_ensures(FIN(""" + VAL % "index" + """) ==> EQV(__CPROVER_return_value, (index >= self->data_->prime_index ? """ + VAL % "index" + """ / STD_EXP(__CPROVER_uninterpreted_gridpoint(self->data_->log_energy.front, self->data_->log_energy.delta, index)) : """ + VAL % "index" + """)))
+__CPROVER_ensures(FIN(""" + VAL % "index" + """) ==> EQV(__CPROVER_return_value, (index >= self->data_->prime_index ? FDIV(""" + VAL % "index" + """, STD_EXP(__CPROVER_uninterpreted_gridpoint(self->data_->log_energy.front, self->data_->log_energy.delta, index))) : """ + VAL % "index" + """)))
 {""" + pc.body + "}\n" + CALC_HARNESS % "XS_index(&c, i);")
 
 
@@ -178,4 +183,130 @@ UNITS = [
          must_have=[r"XS_index.postcondition", r"XS_get.precondition", r"UG_index.precondition"], checks=["--bounds-check", "--pointer-check"],
          assumptions=["std::exp uninterpreted"],
          note="XsCalculator::operator[]: value at a knot, scaled by 1/E for indices >= prime_index"),
+]
+
+
+# ---------------------------------------------------------------------------
+# MSC step conversions: the final clamps (transcendentals uninterpreted)
+# ---------------------------------------------------------------------------
+from vkit.extract import IIFE  # noqa: E402
+
+MFG = "src/celeritas/em/msc/detail/MscStepFromGeo.hh"
+MTG = "src/celeritas/em/msc/detail/MscStepToGeo.hh"
+ALGO = "src/corecel/math/Algorithms.hh"
+
+MSC_MODEL = """
+#include <math.h>
+double __CPROVER_uninterpreted_log1p(double);
+double __CPROVER_uninterpreted_expm1(double);
+double __CPROVER_uninterpreted_fastpow(double, double);
+/* transcendental results: any value that is not NaN (domain errors are excluded by the callers' ranges; accuracy is NOT decided) */
+static double UF_log1p(double x) { double r = __CPROVER_uninterpreted_log1p(x); __CPROVER_assume(!__CPROVER_isnand(r)); return r; }
+static double UF_expm1(double x) { double r = __CPROVER_uninterpreted_expm1(x); __CPROVER_assume(!__CPROVER_isnand(r)); return r; }
+static double UF_fastpow(double a, double b) { double r = __CPROVER_uninterpreted_fastpow(a, b); __CPROVER_assume(!__CPROVER_isnand(r)); return r; }
+typedef struct { real_type min_step_; real_type dtrl_; } UrbanMscParameters;
+typedef struct { UrbanMscParameters const* params_; real_type true_step_; real_type alpha_; real_type lambda_; real_type range_; } MscStepFromGeo;
+#define FINP(x) (!__CPROVER_isnand(x) && !__CPROVER_isinfd(x))
+"""
+
+
+def algo_min_clamp(ctx):
+    """celeritas::min<floating> and celeritas::clamp from Algorithms.hh (the real text)."""
+    mn = ctx.func(ALGO, r"CELER_CONSTEXPR_FUNCTION T min\(T a, T b\) noexcept", [Rule(r"std::fmin", "fmin", 1, note="std::fmin -> C fmin")], name="celeritas::min<floating>")
+    mx = ctx.func(ALGO, r"CELER_CONSTEXPR_FUNCTION T max\(T a, T b\) noexcept", [Rule(r"std::fmax", "fmax", 1, note="std::fmax -> C fmax")], name="celeritas::max<floating>")
+    cl = ctx.func(ALGO, r"inline CELER_FUNCTION T const& clamp\(T const& v, T const& lo, T const& hi\)", [], name="celeritas::clamp")
+    return ("static real_type celer_min(real_type a, real_type b)\n{" + mn.body + "}\n"
+            + "static real_type celer_max(real_type a, real_type b)\n{" + mx.body + "}\n"
+            + "static real_type celer_clamp(real_type v, real_type lo, real_type hi)\n{" + cl.body + "}\n")
+
+
+MFG_RULES = [
+    Rule(r"params_\.min_step\(\)", "self->params_->min_step_", "*", note="UrbanMscParameters::min_step()"),
+    Rule(r"\b(alpha_|lambda_|range_|true_step_)\b", r"self->\1", "*", note="data member"),
+    Rule(r"MscStep::small_step_alpha\(\)", "0 /* MscStep::small_step_alpha() */", "*", note="constexpr accessor (returns 0; checked on the extracted text)"),
+    Rule(r"std::log1p\(", "UF_log1p(", "*", note="std::log1p -> uninterpreted"),
+    Rule(r"\bfastpow\(", "UF_fastpow(", "*", note="fastpow -> uninterpreted"),
+    Rule(r"\bmin\(", "celer_min(", "*", note="celeritas::min"),
+    Rule(r"\bclamp\(", "celer_clamp(", "*", note="celeritas::clamp"),
+    Rule(r"real_type\(1\)", "((real_type)1)", "*", note="functional cast"),
+    IIFE(["real_type"]),
+]
+
+
+def build_msc_from_geo(ctx):
+    import re
+    from vkit.extract import ExtractionDrift
+    ssa = ctx.func("src/celeritas/phys/Interaction.hh", r"static CELER_CONSTEXPR_FUNCTION real_type small_step_alpha\(\)", [], name="MscStep::small_step_alpha")
+    if not re.search(r"return\s+0\s*;", ssa.body):
+        raise ExtractionDrift("MscStep::small_step_alpha() is not `return 0;`")
+    pc = ctx.func(MFG, r"CELER_FUNCTION real_type MscStepFromGeo::operator\(\)\(real_type gstep\) const", MFG_RULES, name="MscStepFromGeo::operator()")
+    return (HDR + MSC_MODEL + algo_min_clamp(ctx) + """
+real_type MFG_call(MscStepFromGeo const* self, real_type gstep)
+__CPROVER_requires(self != 0 && self->params_ != 0)
+__CPROVER_requires(gstep >= 0 && gstep <= self->true_step_)      /* own CELER_EXPECT */
+__CPROVER_requires(FINP(self->true_step_) && FINP(self->lambda_) && self->lambda_ > 0 && FINP(self->range_) && self->range_ > 0 && FINP(self->alpha_) && self->alpha_ >= 0 && self->params_->min_step_ > 0)
+__CPROVER_assigns()
+/* converting a geometric path back to a true path returns a value between the geometric and the original true path */
+__CPROVER_ensures(__CPROVER_return_value >= gstep && __CPROVER_return_value <= self->true_step_)
+{""" + pc.body + """}
+void h_mfg(void)
+{
+    UrbanMscParameters p; MscStepFromGeo m; m.params_ = &p; real_type g;
+    MFG_call(&m, g);
+    VERIF_CANARY();
+}
+""")
+
+
+MTG_RULES = [
+    Rule(r"shared_\.params\.(min_step|dtrl)\(\)", r"self->params_->\1_", "*", note="UrbanMscParameters accessor"),
+    Rule(r"\b(energy_|lambda_|range_)\b", r"self->\1", "*", note="data member"),
+    Rule(r"value_as<Mass>\(shared_\.electron_mass\)", "self->electron_mass_", "*", note="Quantity value"),
+    Rule(r"MscStep::small_step_alpha\(\)", "0 /* MscStep::small_step_alpha() */", "*", note="constexpr accessor"),
+    Rule(r"result_type result;", "MscStepToGeoResult result = {0, 0};", 1, note="default member initializers"),
+    Rule(r"std::expm1\(", "UF_expm1(", "*", note="std::expm1 -> uninterpreted"),
+    Rule(r"\bfastpow\(", "UF_fastpow(", "*", note="fastpow -> uninterpreted"),
+    Rule(r"max<real_type>\(", "celer_max(", "*", note="celeritas::max"),
+    Rule(r"\bmin\(", "celer_min(", "*", note="celeritas::min"),
+    Rule(r"Energy endpoint_energy = helper_\.calc_inverse_range\(rfinal\);", "real_type endpoint_energy = HELPER_calc_inverse_range(rfinal);", 1, note="helper call -> uninterpreted"),
+    Rule(r"helper_\.calc_msc_mfp\(endpoint_energy\)", "HELPER_calc_msc_mfp(endpoint_energy)", 1, note="helper call -> uninterpreted"),
+    Rule(r"CELER_ENSURE\(result\.step <= tstep \|\| soft_equal\(result\.step, tstep\)\);", "/* NOT PROMOTED: CELER_ENSURE(step <= tstep || soft_equal(step, tstep)) -- needs the accuracy of expm1/pow */", (0, 1), note="in-body ENSURE not promoted (depends on transcendental accuracy)"),
+]
+
+
+def build_msc_to_geo(ctx):
+    pc = ctx.func(MTG, r"^MscStepToGeo::operator\(\)\(real_type tstep\) const -> result_type", MTG_RULES, name="MscStepToGeo::operator()")
+    return (HDR + MSC_MODEL + algo_min_clamp(ctx) + """
+typedef struct { real_type step; real_type alpha; } MscStepToGeoResult;   /* { real_type step{}; real_type alpha{0}; } */
+typedef struct { UrbanMscParameters const* params_; real_type electron_mass_; real_type energy_; real_type lambda_; real_type range_; } MscStepToGeo;
+double __CPROVER_uninterpreted_inverse_range(double);
+double __CPROVER_uninterpreted_msc_mfp(double);
+static real_type HELPER_calc_inverse_range(real_type r) { double v = __CPROVER_uninterpreted_inverse_range(r); __CPROVER_assume(!__CPROVER_isnand(v)); return v; }
+static real_type HELPER_calc_msc_mfp(real_type e) { double v = __CPROVER_uninterpreted_msc_mfp(e); __CPROVER_assume(!__CPROVER_isnand(v)); return v; }
+MscStepToGeoResult MTG_call(MscStepToGeo const* self, real_type tstep)
+__CPROVER_requires(self != 0 && self->params_ != 0)
+__CPROVER_requires(tstep >= 0 && tstep <= self->range_)      /* own CELER_EXPECT */
+__CPROVER_requires(self->energy_ > 0 && self->lambda_ > 0 && self->range_ > 0 && FINP(self->range_) && FINP(self->lambda_))   /* constructor EXPECTs */
+__CPROVER_assigns()
+/* converting a true path to a geometric path never lengthens it */
+__CPROVER_ensures(__CPROVER_return_value.step <= tstep)
+{""" + pc.body + """}
+void h_mtg(void)
+{
+    UrbanMscParameters p; MscStepToGeo m; m.params_ = &p; real_type t;
+    MTG_call(&m, t);
+    VERIF_CANARY();
+}
+""")
+
+
+UNITS += [
+    Unit("c14_msc_from_geo", build_msc_from_geo, "h_mfg", enforce="MFG_call", timeout=300, backend=["sat", "cvc5"],
+         must_have=[r"MFG_call.postcondition", r"celer_expect"], checks=["--bounds-check", "--pointer-check"],
+         assumptions=["log1p / fastpow are uninterpreted functions returning any non-NaN value (accuracy not decided)"],
+         note="MscStepFromGeo: the returned true path lies in [geometric step, original true step] for ANY value of the transcendental functions (the final clamp decides it)"),
+    Unit("c14_msc_to_geo", build_msc_to_geo, "h_mtg", enforce="MTG_call", timeout=300, backend=["sat", "cvc5"],
+         must_have=[r"MTG_call.postcondition", r"celer_expect"], checks=["--bounds-check", "--pointer-check"],
+         assumptions=["expm1 / fastpow / inverse range / msc mfp are uninterpreted functions returning any non-NaN value", "NOT PROMOTED: MscStepToGeo's CELER_ENSURE(step <= tstep || soft_equal) (needs transcendental accuracy)"],
+         note="MscStepToGeo: geometric path <= true path for ANY value of the transcendental functions (final min)"),
 ]
